@@ -55,6 +55,9 @@ func Load(args, environ []string) (cfg *Config, err error) {
 
 var errInvalidConfig = errors.New("invalid or missing path to config file")
 
+// maxGlobCacheSize is the largest accepted value for glob.cache.size.
+const maxGlobCacheSize = 10000000
+
 // parse extracts the version and config file flags from the command
 // line arguments and returns the individual parts. Test flags are
 // ignored.
@@ -363,6 +366,15 @@ func load(cmdline, environ, envprefix []string, props *properties.Properties) (c
 	// go1.10 will not accept a non-three digit status code
 	if cfg.Proxy.NoRouteStatus < 100 || cfg.Proxy.NoRouteStatus > 999 {
 		return nil, fmt.Errorf("proxy.noroutestatus must be between 100 and 999")
+	}
+
+	// a negative size would crash the proxies when they create their cache
+	if cfg.GlobCacheSize < 0 {
+		return nil, fmt.Errorf("glob.cache.size must not be negative")
+	}
+	// the cache is allocated up front
+	if cfg.GlobCacheSize > maxGlobCacheSize {
+		return nil, fmt.Errorf("glob.cache.size must not be larger than %d", maxGlobCacheSize)
 	}
 
 	if cfg.Registry.Consul.AllowStale && cfg.Registry.Consul.RequireConsistent {
